@@ -241,6 +241,12 @@ def tree(rc):
 
 _ASSIGN = "                if not is_used[index] and set(factor.scope()).issubset(node):\n                    clique_factors.append(factor)\n                    is_used[index] = True"
 
+
+@rule("C14.defuse", "anchored files: every parameter is read, no value is computed and dropped (generic def-use detectors, triaged hit list)", floor=2)
+def defuse(rc):
+    from . import shared as _sh
+    _sh.defuse_rule(rc, _sh.anchor_files("C14"))
+
 MUTANTS = [
     dict(kind="break", name="jt-bookkeeping-by-value", file=MN, expect="C14.once",
          old="        is_used = [False] * len(self.factors)\n", new="        is_used = {factor: False for factor in self.factors}\n"),
